@@ -7,6 +7,8 @@ import (
 	"encoding/json"
 	"errors"
 	"fmt"
+	"github.com/creachadair/jrpc2/jhttp"
+	"net/http/httptest"
 	"testing"
 	"testing/synctest"
 
@@ -240,7 +242,27 @@ func run(t *testing.T, c Case) (v engine.Verdict) {
 				}
 			}
 			loc := server.NewLocal(handler.Map{"ok": func(ctx context.Context, req *jrpc2.Request) (any, error) { return "fine", nil }, "m": m}, lopts)
-			if c.Via != "" {
+			if c.Via == "getter" {
+				// the same handler behind the HTTP GET entry point: the error body is
+				// the error object
+				g := jhttp.NewGetter(handler.Map{"m": m}, nil)
+				rec := httptest.NewRecorder()
+				g.ServeHTTP(rec, httptest.NewRequest("GET", "/m", nil))
+				g.Close()
+				var eo struct {
+					Code    *int            `json:"code"`
+					Message string          `json:"message"`
+					Data    json.RawMessage `json:"data"`
+				}
+				switch {
+				case rec.Code == 200:
+					wire = rec.Body.Bytes()
+				case json.Unmarshal(rec.Body.Bytes(), &eo) != nil || eo.Code == nil:
+					cerr = fmt.Errorf("GET answered %d with a body that is no error object: %s", rec.Code, rec.Body.String())
+				default:
+					cerr = &jrpc2.Error{Code: jrpc2.Code(*eo.Code), Message: eo.Message, Data: eo.Data}
+				}
+			} else if c.Via != "" {
 				rsps, berr := loc.Client.Batch(context.Background(), []jrpc2.Spec{{Method: "ok"}, {Method: "m"}})
 				switch {
 				case berr != nil:
@@ -336,6 +358,16 @@ func run(t *testing.T, c Case) (v engine.Verdict) {
 	switch {
 	case cerr == nil:
 		return engine.Failf("C14/error-lost", "handler returned %v, the client got success", herr)
+	case c.Via == "getter" && (want == -32097 || want == -32096):
+		// (the client inside the Getter turns these codes into the context
+		// sentinels, which the Getter writes as an empty object - the observation
+		// recorded in DESIGN 12.3d; nothing about it is demanded here)
+		labels = append(labels, "dontcare:context-code-through-getter")
+	case c.Via == "getter" && c.Spec.Kind != "rpcerror" && c.Spec.Kind != "errorf":
+		// other errors reach an HTTP caller as an object with the same code
+		if got := int(jrpc2.ErrorCode(cerr)); got != want && want != -32099 {
+			return engine.Failf("C14/code-changed", "ErrorCode of the handler's error %v is %d, the GET error body carries %v (code %d)", herr, want, cerr, got)
+		}
 	case c.Via != "" && (want == -32097 || want == -32096):
 		// a *Response carries the context codes as an error object
 		if got := int(jrpc2.ErrorCode(cerr)); got != want {
@@ -432,7 +464,10 @@ func genCase(t *rapid.T) Case {
 		c.ViaCallback = true
 	}
 	c.UseCallResult = rapid.IntRange(0, 3).Draw(t, "callresult") == 0
-	c.Via = rapid.SampledFrom([]string{"", "", "", "batch", "batchraw", "batchany", "marshal"}).Draw(t, "via")
+	c.Via = rapid.SampledFrom([]string{"", "", "", "batch", "batchraw", "batchany", "marshal", "getter"}).Draw(t, "via")
+	if c.Via == "getter" && (c.ViaCallback || c.CancelFirst) {
+		c.Via = "" // (a Getter has no push side, and its server is not reachable for CancelRequest)
+	}
 	return c
 }
 
